@@ -9,6 +9,7 @@ import (
 	"bufio"
 	"fmt"
 	"io"
+	"os"
 	"os/exec"
 	"strconv"
 	"strings"
@@ -102,10 +103,23 @@ func (s *Solver) send(str string) {
 	if s.dead {
 		return
 	}
+	if smtLog != nil {
+		io.WriteString(smtLog, str)
+	}
 	if _, err := io.WriteString(s.in, str); err != nil {
 		s.dead = true
 	}
 }
+
+// smtLog: with VCHECK_SMTLOG=<file> (debug, one worker) everything sent to the solver is also written to the file
+var smtLog = func() io.Writer {
+	if p := os.Getenv("VCHECK_SMTLOG"); p != "" {
+		if f, err := os.Create(p); err == nil {
+			return f
+		}
+	}
+	return nil
+}()
 
 // Reset starts a fresh context (one per explored path).
 func (s *Solver) Reset() {
